@@ -60,6 +60,11 @@ ONE = z3.RealVal(1)
 DEG_LO, DEG_HI = Fr(17453292, 10**9), Fr(17453293, 10**9)
 
 
+class NarrowingStore(TypeError):
+    """the code under test stored a real-valued quantity into an array of integer dtype (e.g. one
+    whose dtype was inherited from an integer-typed argument)"""
+
+
 class PoisonUse(Exception):
     """the code under test used an array after handing it to a library call with overwrite_*=True"""
 
@@ -560,6 +565,14 @@ class Sym:
     def __ge__(s, o): return s._cmp(o, 'ge')
     def __le__(s, o): return s._cmp(o, 'le')
     __hash__ = object.__hash__
+
+    def __int__(s):
+        # numpy calls int() when an element is stored into an INTEGER-typed array: for a real-valued
+        # symbolic quantity that store truncates (value-losing), whatever the value
+        c0 = z3.simplify(s.c0)
+        if s.isconst() and is_val(c0) and val(c0).denominator == 1:
+            return int(val(c0))
+        raise NarrowingStore('a real-valued symbolic quantity is stored into an integer-typed array (its fractional part would be lost)')
 
     def __float__(s):
         c0 = z3.simplify(s.c0)
